@@ -9,6 +9,7 @@ import sys
 HERE = os.path.dirname(os.path.abspath(__file__))
 sys.path.insert(0, HERE)
 from tables import write_if_changed, GEN  # noqa: E402
+import pool  # noqa: E402
 
 HEADER = """import EG.SingleTableSpec
 /-
@@ -46,7 +47,7 @@ def scenario(live, op):
                 outcome = 1
             else:
                 outcome = 9
-        except Exception:  # noqa: BLE001
+        except (Exception, pool.Interrupt):  # noqa: BLE001
             outcome = 2
     else:
         singleton.clear_true_singleton(None if op == 16 else ts[op - 12])
